@@ -285,15 +285,18 @@ KIND_TEXT = {
 }
 
 
-def check_instance(values, dname, power, horizon):
+def check_instance(values, dname, power, horizon, container="list"):
     """Build the real instance for one input and compare with the model."""
     from moptipyapps.order1d.instance import Instance
     from moptipyapps.qap.instance import Instance as QAPInstance
     dist = M.DISTS[dname]
     objs = [(v, pos) for pos, v in enumerate(values)]
+    # the objects are an Iterable: a list, a tuple or a one-shot generator
+    data = objs if container == "list" else (
+        tuple(objs) if container == "tuple" else (o for o in objs))
     try:
         inst = Instance.from_sequence_and_distance(
-            objs, lambda a, b: dist(a[0], b[0]), power, horizon,
+            data, lambda a, b: dist(a[0], b[0]), power, horizon,
             ("obj",), lambda o: f"v{o[0]}p{o[1]}")
     except (ValueError, TypeError) as e:
         return "rejected", f"{type(e).__name__}: {e}"[:200]
@@ -366,6 +369,16 @@ def _inst_job(a):
                 for hz in horizons:
                     st, det = check_instance(values, dn, pw, hz)
                     cnt += 1
+                    if st == "ok" and pw == powers[0] and hz == horizons[0]:
+                        # same objects from a tuple / a one-shot generator
+                        for cont in ("tuple", "generator"):
+                            s2, d2 = check_instance(values, dn, pw, hz, cont)
+                            cnt += 1
+                            if s2 != "ok" and "container|" + s2 not in bad:
+                                bad["container|" + s2] = (
+                                    values, dn, pw, hz,
+                                    f"objects handed over as a {cont}: "
+                                    f"{d2}")
                     if st == "ok":
                         merged += det[1]
                         ties += det[2]
@@ -381,6 +394,20 @@ def _inst_job(a):
 
 
 def report_inst(ctx, st, values, dn, pw, hz, det):
+    if st.startswith("container|"):
+        kind = st.split("|")[1]
+        cont = "generator" if "generator" in det else "tuple"
+        again, _ = check_instance(values, dn, pw, hz, cont)
+        if again != kind:
+            raise HarnessError(f"instance case not reproducible: {values} "
+                               f"{dn} {pw} {hz} {cont}: {kind} then {again}")
+        ctx.violation(
+            f"order1d|{kind}|objects from a {cont}",
+            f"{KIND_TEXT.get(kind, kind)}: objects={list(values)} distance="
+            f"{dn} power={pw} horizon={hz}: {det}",
+            dict(kind="instance", values=list(values), dist=dn, power=pw,
+                 horizon=hz, container=cont))
+        return
     again, _ = check_instance(values, dn, pw, hz)
     if again != st:
         raise HarnessError(f"instance case not reproducible: {values} {dn} "
@@ -521,7 +548,7 @@ def replay(ctx: Ctx, rep: dict) -> bool:
               f"fewest exchanges by search = {exp}")
         return got == exp
     st, det = check_instance(tuple(rep["values"]), rep["dist"], rep["power"],
-                             rep["horizon"])
+                             rep["horizon"], rep.get("container", "list"))
     print(f"objects={rep['values']} distance={rep['dist']} "
           f"power={rep['power']} horizon={rep['horizon']}: {st} {det}")
     return st == "ok"
